@@ -217,14 +217,14 @@ KNOWN_UNUSED = "unknown-boundary-word-or-non-numeric-fill-accepted-when-nothing-
 def run(ctx):
     thorough = ctx.tier == "thorough"
     rng = random.Random(ctx.seed * 275604541 + 20)
-    cases = gen_cases(rng, 20000 if thorough else 1600) + gen_transform(rng, 2000 if thorough else 300)
+    cases = gen_cases(rng, 20000 if thorough else 3000) + gen_transform(rng, 2000 if thorough else 400)
     for k, c in enumerate(cases):
         c["id"] = k + 1
     recs = ctx.pmap(execute, cases)
     bad = ctx.validate("C20Trace", recs, jvms=16 if thorough else 8, chunk=600)
     # the ufunc classes (wrong positions, wrong number of inputs) through C11's generator and specification
     ucases = []
-    while len(ucases) < (3000 if thorough else 250):
+    while len(ucases) < (3000 if thorough else 500):
         c = c11.gen_case(rng, len(cases) + len(ucases) + 1)
         if c["edit"] != "none":
             ucases.append(c)
